@@ -69,3 +69,34 @@ func Harness_C17_mapping_quota() {
 	verif_Assert("C17.mq.never_exceeded", active <= limit)
 	verif_Cover("C17.mq.done")
 }
+
+// A request refused because of a quota changes no state: after a listening client at its
+// mapping quota was refused, the code is still unused - somebody below the quota can activate it,
+// or its owner can revoke it - and no mapping was created for the refused client.
+func Harness_C17_quota_refusal_stateless() {
+	ctx := context.Background()
+	w := newC06World(ctx)
+	limit := 1 + verif_Choose(2)
+	w.svc.maxActiveMappingsPerClient = limit
+	now := time.Now()
+	c := &models.TunnelConnectionCode{ID: "conncode_a", Code: "aaa-aaa-aaa", TargetClientID: 3001, TargetAddress: "tcp://10.0.0.5:3306",
+		ActivationTTL: 10 * time.Minute, MappingDuration: time.Hour, CreatedAt: now, ActivationExpiresAt: now.Add(10 * time.Minute), CreatedBy: "t"}
+	verif_Assert("C17.ref.setup", w.repo.Create(c) == nil)
+	for i := 0; i < limit; i++ {
+		exp := now.Add(time.Hour)
+		w.maps.CreatePortMapping(&models.PortMapping{ListenClientID: 2001, TargetClientID: 3001, Status: models.MappingStatusActive, ExpiresAt: &exp})
+	}
+	before := len(w.maps.m)
+	_, err := w.svc.ActivateConnectionCode(&ActivateRequest{Code: "aaa-aaa-aaa", ListenClientID: 2001, ListenAddress: "0.0.0.0:9001"})
+	verif_Assert("C17.ref.refused", err != nil)
+	verif_Assert("C17.ref.no_mapping_created", len(w.maps.m) == before)
+	got, gerr := w.repo.GetByCode("aaa-aaa-aaa")
+	verif_Assert("C17.ref.code_untouched", gerr == nil && !got.IsActivated && !got.IsRevoked)
+	if verif_Bool() {
+		m, aerr := w.svc.ActivateConnectionCode(&ActivateRequest{Code: "aaa-aaa-aaa", ListenClientID: 2002, ListenAddress: "0.0.0.0:9002"})
+		verif_Assert("C17.ref.still_activatable", aerr == nil && m != nil && m.ListenClientID == 2002)
+	} else {
+		verif_Assert("C17.ref.still_revocable", w.svc.RevokeConnectionCode("aaa-aaa-aaa", "owner") == nil)
+	}
+	verif_Cover("C17.ref.done")
+}
